@@ -53,7 +53,9 @@ class CoreEmitter:
             List of generated file paths relative to the workspace root.
         """
         # Determine the absolute path for the core directory, e.g., /path/to/gen/my_client/core
-        actual_core_dir = os.path.join(package_output_dir, self.core_dir_relative)
+        # Normalise lexically: with a shared core the relative path climbs out of the package ("../../shared_core"), and
+        # following ".." through a symlinked package directory would land outside the project root
+        actual_core_dir = os.path.normpath(os.path.join(package_output_dir, self.core_dir_relative))
 
         generated_files = []
         # Ensure the core directory exists (e.g., my_client/core or my_client/shared/core)
